@@ -320,8 +320,8 @@ unsafe impl Kernel<u8, i8, i32> for ArmInt8DotKernel {
         depth: usize,
         _alpha: f32,
         beta: i32,
-        _a_quant: Option<QuantParams<u8>>,
-        _b_quant: Option<QuantParams<i8>>,
+        a_quant: Option<QuantParams<u8>>,
+        b_quant: Option<QuantParams<i8>>,
     ) {
         let a_data = match a {
             Lhs::Packed(data) => data,
@@ -341,8 +341,11 @@ unsafe impl Kernel<u8, i8, i32> for ArmInt8DotKernel {
             used_cols,
             depth,
             beta != 0, // accumulate
-            a_meta.zero_points,
-            b_meta.zero_points,
+            packing::int8::tile_a_zero_points(a_meta.zero_points, a_quant.map(|q| q.zero_point)),
+            packing::int8::tile_b_zero_points_cast_u8(
+                b_meta.zero_points,
+                b_quant.map(|q| q.zero_point),
+            ),
             &a_meta.row_sums,
             &b_meta.col_sums,
             self.dot_isa,
@@ -486,8 +489,8 @@ unsafe impl Kernel<u8, i8, i32> for ArmInt8MlalKernel {
         depth: usize,
         _alpha: f32,
         beta: i32,
-        _a_quant: Option<QuantParams<u8>>,
-        _b_quant: Option<QuantParams<i8>>,
+        a_quant: Option<QuantParams<u8>>,
+        b_quant: Option<QuantParams<i8>>,
     ) {
         use rten_simd::{
             Isa, Simd,
@@ -614,9 +617,12 @@ unsafe impl Kernel<u8, i8, i32> for ArmInt8MlalKernel {
             used_cols,
             depth,
             accumulate,
-            a_meta.zero_points,
+            packing::int8::tile_a_zero_points(a_meta.zero_points, a_quant.map(|q| q.zero_point)),
             a_meta.row_sums,
-            b_meta.zero_points,
+            packing::int8::tile_b_zero_points_cast_u8(
+                b_meta.zero_points,
+                b_quant.map(|q| q.zero_point),
+            ),
             b_meta.col_sums,
             tmp,
         );
@@ -895,8 +901,8 @@ unsafe impl Kernel<u8, i8, i32> for ArmInt8MMKernel {
         depth: usize,
         _alpha: f32,
         beta: i32,
-        _a_quant: Option<QuantParams<u8>>,
-        _b_quant: Option<QuantParams<i8>>,
+        a_quant: Option<QuantParams<u8>>,
+        b_quant: Option<QuantParams<i8>>,
     ) {
         use rten_simd::{
             Isa,
@@ -1023,9 +1029,12 @@ unsafe impl Kernel<u8, i8, i32> for ArmInt8MMKernel {
             used_cols,
             depth,
             accumulate,
-            a_meta.zero_points,
+            packing::int8::tile_a_zero_points(a_meta.zero_points, a_quant.map(|q| q.zero_point)),
             a_meta.row_sums,
-            b_meta.zero_points,
+            packing::int8::tile_b_zero_points_cast_u8(
+                b_meta.zero_points,
+                b_quant.map(|q| q.zero_point),
+            ),
             b_meta.col_sums,
             tmp,
         );
